@@ -26,3 +26,5 @@ def check(ctx, env):
     M.r8_6_password_taint(ctx, prog)
     from . import codec_rules as K
     K.r4_5_siblings(ctx, prog, rule="R8.7")
+    if env.tier == "thorough":
+        M.r8_8_lt_end_to_end(ctx, prog)
